@@ -32,6 +32,8 @@ type c08Plan struct {
 	Policy      simnet.Policy
 	Direct      bool   // observe the raw reply through the handler wrapper instead of end to end
 	SecondAsker bool   // a second asker fetches the same key concurrently
+	Unopened    int    // FINDCONTENT requests of another peer for the same key whose announced uTP stream is never opened, before the judged request
+	Limit       int    // 0: default number of transfer slots of the responder, else 1 or 2
 	Prior       []byte // non-empty: the asker ran with this version set before (same identity and endpoint), contacted the responder, and restarted
 }
 
@@ -68,7 +70,7 @@ func genC08(t *rapid.T) c08Plan {
 	if rapid.IntRange(0, 3).Draw(t, "hasprior") == 0 {
 		prior = rapid.SampledFrom([][]byte{{0}, {1}, {0, 1}}).Draw(t, "prior")
 	}
-	return c08Plan{Prior: prior, VA: rapid.SampledFrom(sets).Draw(t, "va"), VB: rapid.SampledFrom(sets).Draw(t, "vb"),
+	return c08Plan{Prior: prior, Unopened: rapid.SampledFrom([]int{0, 0, 1, 2, 3}).Draw(t, "unopened"), Limit: rapid.SampledFrom([]int{0, 1, 1, 2}).Draw(t, "limit"), VA: rapid.SampledFrom(sets).Draw(t, "va"), VB: rapid.SampledFrom(sets).Draw(t, "vb"),
 		Held: rapid.IntRange(0, 3).Draw(t, "held") != 0, Size: genSize(t), Seed: rapid.Byte().Draw(t, "seed"),
 		KeySeed: rapid.Uint32().Draw(t, "key"), Table: genTableNodes(t, rapid.SampledFrom([]int{0, 6, 40, 272}).Draw(t, "maxN")),
 		AskerInTab: rapid.Bool().Draw(t, "askerInTab"), Policy: genPolicy(t), Direct: rapid.IntRange(0, 2).Draw(t, "direct") == 0,
@@ -116,7 +118,7 @@ func tableRecords(l *pp.Live) map[string]enode.ID {
 func runC08(p c08Plan, c *stats.Case) error {
 	hub := simnet.NewHub()
 	store := pp.NewMemStore()
-	b, err := pp.NewLive(hub, pp.LiveOpts{KeyIdx: 51, Port: nextPort(), Versions: p.VB, Storage: store, UtpFast: true, RespTimeout: 20 * time.Second})
+	b, err := pp.NewLive(hub, pp.LiveOpts{KeyIdx: 51, Port: nextPort(), Versions: p.VB, Storage: store, UtpFast: true, RespTimeout: 20 * time.Second, MaxUtp: p.Limit})
 	if err != nil {
 		return fmt.Errorf("harness: %v", err)
 	}
@@ -260,6 +262,26 @@ func runC08(p c08Plan, c *stats.Case) error {
 			ch <- res{f, v, e}
 		}()
 		return ch
+	}
+	if p.Unopened > 0 && p.Size > inlineThreshold && p.Policy.Clean() {
+		// another peer asked for the same item before and never opened the streams it was offered: whatever the
+		// responder keeps for those (a waiting accept, a slot) must not stand in the way of the next asker
+		s, err := pp.NewScripted(hub, 55, net.IP{127, 0, 0, 1}, nextPort(), p.VA, 400*time.Millisecond)
+		if err != nil {
+			return fmt.Errorf("harness: %v", err)
+		}
+		defer s.Stop()
+		body, _ := (&portalwire.FindContent{ContentKey: key}).MarshalSSZ()
+		announced := 0
+		for i := 0; i < p.Unopened; i++ {
+			resp, err := s.Disc.TalkRequest(b.Node(), string(portalwire.History), append([]byte{portalwire.FINDCONTENT}, body...))
+			if err == nil && len(resp) >= 2 && resp[0] == portalwire.CONTENT && resp[1] == portalwire.ContentConnIdSelector {
+				announced++
+			}
+		}
+		if announced > 0 {
+			c.NT(fmt.Sprintf("after-unopened-streams:limit=%d", p.Limit))
+		}
 	}
 	if len(p.Prior) > 0 && hub.Sent(apA) != sentA0 {
 		c.Class("discarded:responder-contacted-the-restarted-node-first") // see above; checked again right before the request
